@@ -27,6 +27,9 @@ type absOp struct {
 	Vdef string `json:"vdef"`
 	Frag string `json:"frag"`
 	Ids  bool   `json:"ids"`
+	// only in the random pool: a numbered alias on the root field - many distinct cache keys, so that plans are built
+	// (and their steps ordered by map iteration) many times
+	Alias int `json:"alias,omitempty"`
 }
 
 // cacheWorld: User is a Node type split over two services; `both` exists on Query (service 0)
@@ -73,9 +76,20 @@ func realise(o absOp) concrete {
 	if o.Vdef == "V2" {
 		def = "2"
 	}
-	root := "both(x: $v)"
+	root, pre, post := "both(x: $v)", "", ""
 	if o.Sel == "S2" {
 		root = "other: both(x: $v)"
+	}
+	if o.Alias > 0 {
+		root = fmt.Sprintf("r%d: both(x: $v)", o.Alias)
+	}
+	if o.Sel == "S3" {
+		// a root field the gateway answers itself next to the service's
+		if o.Alias%2 == 0 {
+			pre = "__typename "
+		} else {
+			post = " __typename"
+		}
 	}
 	body := "a0 best { a1 }"
 	if o.Ids {
@@ -90,7 +104,7 @@ func realise(o absOp) concrete {
 		body, frags = "...F", "fragment F on User { a1 best { a0 } }\n"
 	}
 	// the document always holds two operations; operationName selects one of them
-	text := fmt.Sprintf("%s A($v: Int = %s) { %s { %s } }\nquery B { q1 }\n%s", kw, def, root, body, frags)
+	text := fmt.Sprintf("%s A($v: Int = %s) { %s%s { %s }%s }\nquery B { q1 }\n%s", kw, def, pre, root, body, post, frags)
 	return concrete{text: text, name: o.Name, vars: map[string]interface{}{}}
 }
 
@@ -213,6 +227,14 @@ func main() {
 		m(&o)
 		pool = append(pool, o)
 	}
+	for i := 1; i <= 24; i++ {
+		o := base
+		o.Sel, o.Alias = "S3", i
+		if i%3 == 0 {
+			o.Kind = "m"
+		}
+		pool = append(pool, o)
+	}
 	for r := 0; r < *random; r++ {
 		cg, _ := gw.New(w, gw.Config{Name: "cached", Cached: true, TTLms: -1})
 		cg.SetCachedPlanner([]time.Duration{time.Nanosecond, 2 * time.Millisecond, time.Hour}[rng.Intn(3)])
@@ -244,6 +266,52 @@ func main() {
 					mu.Unlock()
 					if lr.Intn(4) == 0 {
 						time.Sleep(time.Duration(lr.Intn(3)) * time.Millisecond)
+					}
+				}
+			}(cidx)
+		}
+		wg.Wait()
+	}
+	// hammer: 16 clients send the whole pool to ONE caching gateway as fast as they can (plans are computed, looked up
+	// and evicted at the same instant by many requests); every answer must be the one the plain gateway gave for that
+	// operation and those variables when asked alone.  Mismatches and a sample of the matches go to CacheTrace.
+	for r := 0; r < *random; r++ {
+		cg, _ := gw.New(w, gw.Config{Name: "cached", Cached: true, TTLms: -1})
+		cg.SetCachedPlanner([]time.Duration{time.Nanosecond, 200 * time.Microsecond, time.Hour}[r%3])
+		pg, _ := gw.New(w, gw.Config{Name: "plain"})
+		type hop struct {
+			c    concrete
+			vars map[string]interface{}
+			want string
+		}
+		var hops []hop
+		for _, o := range pool {
+			for _, v := range []interface{}{nil, 1, 2} {
+				c := realise(o)
+				vars := map[string]interface{}{}
+				if v != nil {
+					vars["v"] = v
+				}
+				_, e2, err2 := pg.DoText(c.text, vars, c.name)
+				hops = append(hops, hop{c, vars, canonResp(e2, err2)})
+			}
+		}
+		var wg sync.WaitGroup
+		var mu sync.Mutex
+		for cidx := 0; cidx < 16; cidx++ {
+			wg.Add(1)
+			go func(cidx int) {
+				defer wg.Done()
+				lr := rand.New(rand.NewSource(*seed*1000 + int64(r*16+cidx)))
+				for k := 0; k < 120; k++ {
+					h := hops[lr.Intn(len(hops))]
+					_, e1, err1 := cg.DoText(h.c.text, h.vars, h.c.name)
+					got := canonResp(e1, err1)
+					if got != h.want || k%40 == 0 {
+						vb, _ := json.Marshal(h.vars)
+						mu.Lock()
+						enc.Encode(stepEv{Ev: "Step", Hist: r, K: k, Mode: "hammer-16-clients", Text: h.c.text, Vars: string(vb), Cached: got, Plain: h.want})
+						mu.Unlock()
 					}
 				}
 			}(cidx)
